@@ -43,7 +43,67 @@ def oracle(ctx, c):
                     return
 
 
+def failing_label(a):
+    """(child) the example is fine but its *label* cannot be copied (an object `copy.deepcopy` refuses: a lock handed over by mistake;
+    a label nested deeper than the recursion limit allows): `write_example` raises, the caller skips that example and keeps writing.
+    Whether the example of the failing call is stored or not, no listed shard may exceed the configured size, and the recorded count
+    of every shard is what its file holds."""
+    import shutil, threading, sys
+    from pathlib import Path
+    from harness.core import sp
+    sp.sedpack()
+    from sedpack.io import Dataset
+    out = []
+    for kind in a["kinds"]:
+        root = Path(a["root"]); shutil.rmtree(root, ignore_errors=True)
+        r = {"kind": kind, "eps": a["eps"]}
+        try:
+            ds = sp.mk(root, fmt=a["fmt"], eps=a["eps"])
+            def bad_label():
+                if kind == "lock":
+                    return {"k": 1, "handle": threading.Lock()}
+                d = cur = {"k": 1}
+                for _ in range(sys.getrecursionlimit() * 2):
+                    cur["n"] = {}; cur = cur["n"]
+                return d
+            failed = 0
+            with ds.filler() as f:
+                v = 0
+                for step in range(a["steps"]):
+                    for lab in ([bad_label()] * a["bad_run"] if step % 2 == 0 else []) + [{"k": 1}] * (a["eps"] + 1):
+                        try:
+                            f.write_example(values=sp.val(v), split="train", custom_metadata=lab)
+                        except Exception:  # noqa: BLE001  (TypeError: cannot pickle a lock / RecursionError)
+                            failed += 1
+                        v += 1
+            r["failed_calls"] = failed
+            d2 = Dataset(root)
+            r["shards"] = []
+            for si in d2.shard_info_iterator("train"):
+                ids = F.decode_shard(d2, d2.path / si.file_infos[0].file_path)
+                r["shards"].append({"n": si.number_of_examples, "stored": len(ids) if isinstance(ids, list) else str(ids)})
+        except Exception as e:  # noqa: BLE001
+            r["error"] = f"{type(e).__name__}: {str(e)[:200]}"
+        out.append(r)
+        shutil.rmtree(root, ignore_errors=True)
+    return out
+
+
 def run(ctx):
+    from harness.core import child
+    nfl = 0
+    for j, fmt in enumerate(["fb", "npz", "tfrec"][: ctx.pick(2, 3)]):
+        fa = {"root": str(ctx.scratch / f"c10_label{j}"), "fmt": ["fb", "npz", "tfrec"][(j + ctx.seed) % 3], "eps": [4, 2, 3][j], "steps": 4, "bad_run": [3, 7, 1][j], "kinds": ["lock", "deep"]}
+        for r in child.call("harness.checks.c10", "failing_label", fa, timeout=600):
+            nfl += 1
+            if "error" in r:
+                ctx.report({"kind": "session-error", "format": fa["fmt"], "label": r["kind"]}, f"session with labels that cannot be copied failed as a whole: {r['error']}", {"label_case": fa, "result": r}); continue
+            bad = next((x for x in r["shards"] if not isinstance(x["stored"], int) or not (1 <= x["stored"] <= r["eps"]) or x["n"] != x["stored"]), None)
+            if bad is not None:
+                ctx.report({"kind": "size", "format": fa["fmt"], "label": r["kind"]},
+                           f"after write_example calls that failed while copying the label ({r['kind']}; {r['failed_calls']} failed calls, skipped by the caller): a listed shard records {bad['n']} and stores {bad['stored']} examples, eps={r['eps']}",
+                           {"label_case": fa, "result": r})
+    ctx.cov["failing_label_runs"] = nfl
     cases = F.explore(ctx, "C10")
     for c in cases:
         oracle(ctx, c)
